@@ -103,20 +103,32 @@ func expandNamedUUID(column *ColumnSchema, value interface{}, namedUUIDs map[str
 		valType = column.TypeObj.Value.Type
 	}
 
-	if valType == TypeUUID {
-		if m, ok := value.(OvsMap); ok {
-			for k, v := range m.GoMap {
-				if newUUID, ok := expandNamedUUIDAtomic(keyType, k, namedUUIDs); ok {
-					m.GoMap[newUUID] = m.GoMap[k]
-					delete(m.GoMap, k)
-					k = newUUID
-				}
-				if newUUID, ok := expandNamedUUIDAtomic(valType, v, namedUUIDs); ok {
-					m.GoMap[k] = newUUID
-				}
+	if m, ok := value.(OvsMap); ok {
+		// named UUIDs can be used as keys and as values of a map,
+		// independently of each other
+		type replacement struct {
+			oldKey, newKey, newValue interface{}
+		}
+		var replacements []replacement
+		for k, v := range m.GoMap {
+			newKey, keyExpanded := expandNamedUUIDAtomic(keyType, k, namedUUIDs)
+			newValue, valueExpanded := expandNamedUUIDAtomic(valType, v, namedUUIDs)
+			if keyExpanded || valueExpanded {
+				replacements = append(replacements, replacement{k, newKey, newValue})
 			}
 		}
-	} else if keyType == TypeUUID {
+		for _, r := range replacements {
+			delete(m.GoMap, r.oldKey)
+		}
+		for _, r := range replacements {
+			m.GoMap[r.newKey] = r.newValue
+		}
+		return value
+	}
+
+	if keyType == TypeUUID {
+		// a set of UUIDs, which for a map column is a set of keys (i.e. the
+		// argument of a delete mutation)
 		if ovsSet, ok := value.(OvsSet); ok {
 			for i, s := range ovsSet.GoSet {
 				if newUUID, ok := expandNamedUUIDAtomic(keyType, s, namedUUIDs); ok {
